@@ -7,6 +7,7 @@ import (
 	"strconv"
 	"strings"
 	"testing"
+	"time"
 
 	"github.com/ava-labs/hypersdk/chain"
 	"github.com/ava-labs/hypersdk/chain/chaintest"
@@ -144,7 +145,7 @@ func TestVerifC06(t *testing.T) {
 	ctx := context.Background()
 	env := verifx.NewEnv()
 	bh := &storage.BalanceHandler{}
-	accts := []codec.Address{verifx.Addr(1), verifx.Addr(2), verifx.Addr(3)}
+	accts := []codec.Address{verifx.Addr(1), verifx.Addr(2), verifx.Addr(3), verifx.Addr(4)} // Addr(4) only ever receives
 	var universe [][]byte
 	for _, a := range accts {
 		universe = append(universe, storage.BalanceKey(a))
@@ -155,6 +156,151 @@ func TestVerifC06(t *testing.T) {
 	}
 	uniS := strings.Join(uni, ",")
 	now := verifx.C03Now
+
+	type seqTx struct {
+		p *c06Tx
+		o verifx.TxOutcome
+	}
+	var seq []seqTx
+	rb := verifx.NewRealBlocks(bh)
+	// block: the sequence as one real block through Processor.Execute and Builder.BuildBlock;
+	// the conservation oracle is evaluated on the post-state view they return.
+	block := func(c *verifx.Chain, l string) {
+		for i := range seq {
+			if seq[i].p.prices != seq[0].p.prices || seq[i].p.now != seq[0].p.now {
+				r.Emit(l, "mixed")
+				return
+			}
+		}
+		var viol []func()
+		v := func(key, format string, a ...any) { viol = append(viol, func() { r.Violation(key, format, a...) }) }
+		prices := fees.Dimensions{}
+		if len(seq) > 0 {
+			prices = seq[0].p.prices
+		}
+		rules := verifx.BlockRules(prices)
+		mk := func(p *c06Tx, ts int64) *chain.Transaction {
+			cp := *p
+			cp.ts = ts
+			tx, err := cp.build(env)
+			if err != nil {
+				panic(err)
+			}
+			return tx
+		}
+		var okTxs, allTxs []*chain.Transaction
+		var okRes []*chain.Result
+		allOk := true
+		for _, x := range seq {
+			allTxs = append(allTxs, mk(x.p, x.p.ts))
+			if x.o.Stage == "ok" {
+				okTxs = append(okTxs, mk(x.p, x.p.ts))
+				okRes = append(okRes, x.o.Result)
+			} else {
+				allOk = false
+			}
+		}
+		before, _ := supply(c.Base)
+		conserved := func(where string, out verifx.RealOut) {
+			want := new(big.Int).Set(before)
+			for _, res := range out.Results {
+				want.Sub(want, new(big.Int).SetUint64(res.Fee))
+			}
+			got, _ := supply(out.State)
+			if got.Cmp(want) != 0 {
+				v("supply-not-conserved", "%s: sum of all balance records %s -> %s, expected %s (= before - sum of Result.Fee)", where, before, got, want)
+			}
+		}
+		want := c.Visible()
+		pv := rb.Verify(rules, c.Base, now, okTxs)
+		proc := verifx.ErrTag(pv.Err)
+		sum := "-"
+		if pv.Err == nil {
+			proc = fmt.Sprintf("ok n=%d state=%s", len(pv.Results), verifx.StateStringOf(c.Universe, pv.State))
+			s, _ := supply(pv.State)
+			sum = s.String()
+			conserved("Processor.Execute", pv)
+			for i := range okRes {
+				if i < len(pv.Results) && !verifx.ResultsEqual(okRes[i], pv.Results[i]) {
+					v("processor-result-differs", "tx %d: Processor.Execute result %+v, one-by-one execution %+v", i, pv.Results[i], okRes[i])
+					break
+				}
+			}
+			if len(pv.State) != len(want) {
+				v("processor-state-differs", "post-state of Processor.Execute has %d keys, one-by-one execution %d", len(pv.State), len(want))
+			}
+			for k, x := range want {
+				if string(pv.State[k]) != string(x) {
+					v("processor-state-differs", "key %x: Processor.Execute %x, one-by-one execution %x", k, pv.State[k], x)
+					break
+				}
+			}
+		} else {
+			v("valid-block-rejected", "Processor.Execute rejects a block of transactions that each pay their fee: %v", pv.Err)
+		}
+		procall := "ok"
+		if !allOk {
+			if pa := rb.Verify(rules, c.Base, now, allTxs); pa.Err != nil {
+				procall = "err"
+			} else {
+				v("block-with-failing-tx-accepted", "Processor.Execute accepted a block containing a transaction whose PreExecute/Execute fails")
+			}
+		} else if pv.Err != nil {
+			procall = "err"
+		}
+		base := (time.Now().UnixMilli() / 1000) * 1000
+		var btxs []*chain.Transaction
+		for _, x := range seq {
+			btxs = append(btxs, mk(x.p, base+(x.p.ts-x.p.now)))
+		}
+		built, ver := rb.Build(rules, c.Base, btxs)
+		build := ""
+		if built.Err != nil {
+			build = "abort:" + verifx.ClassErr(built.Err)
+			explained := false
+			for _, x := range seq {
+				// PreExecute ok, Execute error: zero fee and no balance record (C03 known finding
+				// build-aborts-on-zero-fee-absent-sponsor); nothing is created or destroyed
+				if x.o.Stage == "exec" && verifx.BigFee(x.p.prices, x.p.units).Sign() == 0 {
+					explained = true
+				}
+			}
+			if explained {
+				r.Count("build-abort:zero-fee-absent-sponsor")
+			} else {
+				v("build-aborted", "Builder.BuildBlock returned %v", built.Err)
+			}
+		} else {
+			in := map[string]bool{}
+			for _, tx := range built.Txs {
+				in[string(tx.Bytes())] = true
+			}
+			flags := make([]string, len(seq))
+			for i, x := range seq {
+				flags[i] = "0"
+				if in[string(btxs[i].Bytes())] {
+					flags[i] = "1"
+				}
+				if in[string(btxs[i].Bytes())] != (x.o.Stage == "ok") {
+					v("builder-includes-differ", "Builder.BuildBlock inclusion of tx %d differs from one-by-one execution", i)
+				}
+			}
+			build = "ok inc=" + strings.Join(flags, ",")
+			if len(flags) == 0 {
+				build = "ok inc=none"
+			}
+			conserved("Builder.BuildBlock", built)
+			if ver.Err != nil {
+				v("built-block-rejected", "Processor.Execute rejects the block the builder produced: %v", ver.Err)
+			} else if fmt.Sprint(built.State) != fmt.Sprint(ver.State) {
+				v("builder-verifier-state-differ", "builder and verifier post-states differ")
+			}
+		}
+		r.Emit(l, fmt.Sprintf("proc=%s procall=%s build=%s sum=%s", proc, procall, build, sum))
+		for _, f := range viol {
+			f()
+		}
+	}
 
 	exec := func(c *verifx.Chain, l string, emit bool) {
 		f := verifh.Fields(l)
@@ -186,6 +332,7 @@ func TestVerifC06(t *testing.T) {
 		if !emit {
 			return
 		}
+		seq = append(seq, seqTx{p: p, o: o})
 		r.Emit(l, c.OutcomeString(o)+" sum="+post.String()+" diff="+c.DiffString())
 		r.Count("stage:" + o.Stage)
 		r.Count(fmt.Sprintf("ntransfers:%d", len(p.transfers)))
@@ -229,17 +376,24 @@ func TestVerifC06(t *testing.T) {
 			t1 := &c06Tx{prices: one, sponsor: accts[0], actor: accts[0], now: now, ts: now + 30000, raw: a1 + ":100:0|" + a1 + ":100:0"}
 			l := t1.fill(env, bh)
 			fee := verifx.BigFee(t1.prices, t1.units).Uint64()
-			lines = append(lines, fmt.Sprintf("reset m %s %s=%s", uniS, uni[0], verifh.Hex(verifx.PutU64(fee+100))), l)
+			lines = append(lines, fmt.Sprintf("reset m %s %s=%s", uniS, uni[0], verifh.Hex(verifx.PutU64(fee+100))), l, "block")
 			// and the same with three, then a failing fourth action
 			t2 := &c06Tx{prices: one, sponsor: accts[0], actor: accts[0], now: now, ts: now + 30000, raw: a1 + ":7:0|" + a1 + ":7:0|" + a1 + ":7:0|" + a1 + ":8:0"}
 			l2 := t2.fill(env, bh)
 			fee2 := verifx.BigFee(t2.prices, t2.units).Uint64()
-			lines = append(lines, fmt.Sprintf("reset m %s %s=%s", uniS, uni[0], verifh.Hex(verifx.PutU64(fee2+7))), l2)
+			lines = append(lines, fmt.Sprintf("reset m %s %s=%s", uniS, uni[0], verifh.Hex(verifx.PutU64(fee2+7))), l2, "block")
 		}
-		for i := 0; i < r.N(4000, 60000); i++ {
+		for i := 0; i < r.N(1400, 40000); i++ {
 			// one block: initial allocation, then 1..4 transfer transactions
 			init := map[string][]byte{}
 			for j := range accts {
+				if j == 3 {
+					continue // the fourth account has no record before the block
+				}
+				if rng.Intn(40) == 0 {
+					init[string(universe[j])] = rng.Bytes(7) // malformed record: can never be spent or credited
+					continue
+				}
 				switch rng.Intn(8) {
 				case 0:
 				case 1:
@@ -264,6 +418,14 @@ func TestVerifC06(t *testing.T) {
 			}
 			lines = append(lines, fmt.Sprintf("reset m %s %s", uniS, initS))
 			scratch := verifx.NewChain(universe, init) // mirrors the state so that values can be chosen at the boundaries
+			var blockPrices fees.Dimensions
+			for d := range blockPrices {
+				blockPrices[d] = uint64(rng.Intn(3))
+			}
+			if rng.Chance(40) {
+				blockPrices = one
+			}
+			blockN := 0
 			for n := 2 + rng.Intn(4); n > 0; n-- {
 				tx := &c06Tx{now: now, ts: now + 30000, maxFee: rng.Pick64()}
 				tx.actor = accts[rng.Intn(3)]
@@ -271,12 +433,9 @@ func TestVerifC06(t *testing.T) {
 				if rng.Chance(35) {
 					tx.sponsor = accts[rng.Intn(3)]
 				}
-				for d := range tx.prices {
-					tx.prices[d] = uint64(rng.Intn(3))
-				}
-				if rng.Chance(40) {
-					tx.prices = one
-				}
+				tx.prices = blockPrices
+				tx.maxFee = tx.maxFee/8*8 + uint64(blockN) // distinct transactions within the block
+				blockN++
 				nT := 1 + rng.Intn(4)
 				if rng.Chance(8) {
 					nT = 5 + rng.Intn(12)
@@ -292,7 +451,7 @@ func TestVerifC06(t *testing.T) {
 				}
 				vals, tos, memos := make([]uint64, nT), make([]int, nT), make([]int, nT)
 				for i := range tos {
-					tos[i] = rng.Intn(3)
+					tos[i] = rng.Intn(4)
 					if rng.Chance(35) {
 						for j, a := range accts {
 							if a == tx.actor {
@@ -360,6 +519,7 @@ func TestVerifC06(t *testing.T) {
 				lines = append(lines, l)
 				exec(scratch, l, false)
 			}
+			lines = append(lines, "block")
 		}
 	}
 
@@ -375,8 +535,17 @@ func TestVerifC06(t *testing.T) {
 				continue
 			}
 			c = verifx.NewChain(u, init)
+			seq = nil
 			s, _ := supply(c.Visible())
 			r.Emit(l, "ok sum="+s.String())
+			continue
+		}
+		if len(f) == 1 && f[0] == "block" {
+			if c == nil {
+				r.Emit(l, "bad-op")
+			} else {
+				block(c, l)
+			}
 			continue
 		}
 		exec(c, l, true)
